@@ -16,6 +16,7 @@ from mc.refmodel import core as ref
 from mc.streams import UBX_ERRORS
 
 from pyubx2 import UBXReader
+from pyubx2 import ubxhelpers as H
 import pyubx2.exceptions as ube
 
 PROP = "C05"
@@ -113,6 +114,11 @@ FEW = (0x00, 0x01, 0x02, 0x62, 0xB5, 0x7F, 0x80, 0xFE, 0xFF)
 
 
 def replay_case(case):
+    if case["kind"] == "sealed":
+        pl = bytearray((i * 7) % 256 for i in range(case["n"]))
+        frame = ref.frame(0x04, 0x02, bytes(pl))
+        content = frame[2:-5] + bytes.fromhex(case["tail"])
+        return [(a + "|sealed_with_library_checksum", b) for a, b in judge(b"\xb5\x62" + content + H.calc_checksum(content), 0)[2]]
     if case["kind"] == "extreme":
         n, k, d = case["n"], case["k"], case["d"]
         pl = bytearray((i * 7) % 256 for i in range(n))
@@ -123,7 +129,8 @@ def replay_case(case):
             x[-3 - k] = (x[-3 - k] - d) % 256
         return [(a + "|max_length_frame", b) for a, b in judge(bytes(x), 0)[2]]
     if case["kind"] == "fault":
-        return judge(bytes.fromhex(case["x"]), case.get("mode", 0))[2]
+        out = judge(bytes.fromhex(case["x"]), case.get("mode", 0))[2]
+        return [(a + "|sealed_with_library_checksum", b) for a, b in out] if case.get("fault") == "sealed" else out
     return judge_valnone(bytes.fromhex(case["frame"]), bytes.fromhex(case["ck"]), case["mode"])[1]
 
 
@@ -180,6 +187,16 @@ def eval_block(block, acc):
             frame = streams.TOKENS[t][2]
             run_faults(frame, 0, ALL, False, acc, t)
             run_valnone(frame, 0, single_byte_cks(frame) if quick else [bytes((a, b)) for a in range(256) for b in range(256)], acc)
+        for t in ("Uack", "Uunk"):
+            frame = streams.TOKENS[t][2]
+            for i in range(2, len(frame) - 2):
+                for v in FEW:
+                    content = frame[2:i] + bytes((v,)) + frame[i + 1 : -2]
+                    xx = b"\xb5\x62" + content + H.calc_checksum(content)
+                    wf, ret, out = judge(xx, 0)
+                    acc.evaluations += 1
+                    for key, detail in out:
+                        acc.violation(key + "|sealed_with_library_checksum", {"kind": "fault", "x": xx.hex(), "mode": 0, "fault": "sealed"}, detail)
     elif kind == "double":
         _, t, i = block[:3]
         frame = streams.TOKENS[t][2]
@@ -206,6 +223,15 @@ def eval_block(block, acc):
         for n in (65531, 65532, 65533, 65534, 65535):
             pl = bytearray((i * 7) % 256 for i in range(n))
             frame = ref.frame(0x04, 0x02, bytes(pl))
+            # frames sealed with the library's own checksum helper: accepted only if that equals Fletcher
+            for tail in (b"\x00\x00\x00", b"\x01\xff\x00", b"\xff\xff\xff", b"\x80\x00\x7f"):
+                content = frame[2:-5] + tail
+                xx = b"\xb5\x62" + content + H.calc_checksum(content)
+                wf, ret, out = judge(xx, 0)
+                acc.evaluations += 1
+                acc.outcomes[("sealed", wf, ret.split(":")[0])] += 1
+                for key, detail in out:
+                    acc.violation(key + "|sealed_with_library_checksum", {"kind": "sealed", "n": n, "tail": tail.hex()}, detail)
             for k in (1, 2, 3, 4):
                 for d in (1, 255, 0x80):
                     x = bytearray(frame)
